@@ -42,5 +42,218 @@ theorem tripleBody_rest_lt (s : Str) : ∀ a b, tripleBody s = some (a, b) → b
   all_goals simp_all
   all_goals (try (obtain ⟨x, y, hxy, rfl, rfl⟩ := h))
   all_goals first | omega | (rename_i ih; have := ih _ _ y; omega)
+theorem lit_rest {p s r : Str} (h : lit p s = some r) : r.length + p.length = s.length := by
+  induction p generalizing s with
+  | nil => simp [lit] at h; subst h; simp
+  | cons x xs ih =>
+    cases s with
+    | nil => simp [lit] at h
+    | cons c cs =>
+      simp only [lit] at h
+      split at h
+      · have := ih h; simp only [List.length_cons]; omega
+      · simp at h
+
+theorem dotDigitsStar_rest_le (env : Env) (fuel : Nat) (s : Str) : (dotDigitsStar env fuel s).2.length ≤ s.length := by
+  induction fuel generalizing s with
+  | zero => simp [dotDigitsStar]
+  | succ n ih =>
+    unfold dotDigitsStar
+    split
+    · rename_i r
+      cases hm : many1 env.isDigit r with
+      | none => simp
+      | some v =>
+        obtain ⟨d, r'⟩ := v
+        have h1 := many1_rest_lt hm
+        have h2 := ih r'
+        simp only [List.length_cons]; omega
+    · simp
+
+theorem prerelease_rest_lt {s a b : Str} (h : prerelease s = some (a, b)) : b.length < s.length := by
+  unfold prerelease at h
+  split at h
+  · rename_i r
+    cases hm : many1 isPreChar r with
+    | none => simp [hm] at h
+    | some v =>
+      obtain ⟨x, y⟩ := v
+      simp [hm] at h
+      obtain ⟨_, rfl⟩ := h
+      have := many1_rest_lt hm
+      simp only [List.length_cons]; omega
+  · simp at h
+
+theorem build_rest_lt {s a b : Str} (h : build s = some (a, b)) : b.length < s.length := by
+  unfold build at h
+  split at h
+  · rename_i r
+    cases hm : many1 isBuildChar r with
+    | none => simp [hm] at h
+    | some v =>
+      obtain ⟨x, y⟩ := v
+      simp [hm] at h
+      obtain ⟨_, rfl⟩ := h
+      have := many1_rest_lt hm
+      simp only [List.length_cons]; omega
+  · simp at h
+
+theorem opt_rest_le (f : Str → Option (Str × Str)) (hf : ∀ s a b, f s = some (a, b) → b.length < s.length) (s : Str) :
+    (opt f s).2.length ≤ s.length := by
+  unfold opt
+  cases h : f s with
+  | none => simp
+  | some v => obtain ⟨a, b⟩ := v; have := hf s a b h; simp; omega
+
+theorem twoParts_rest_lt {env : Env} {s a b : Str} (h : twoParts env s = some (a, b)) : b.length < s.length := by
+  unfold twoParts at h
+  cases hm1 : many1 env.isDigit s with
+  | none => simp [hm1] at h
+  | some v =>
+    obtain ⟨d1, r⟩ := v
+    simp only [hm1] at h
+    cases r with
+    | nil => simp at h
+    | cons c r1 =>
+      by_cases hc : c = '.'
+      · subst hc
+        simp only at h
+        cases hm2 : many1 env.isDigit r1 with
+        | none => simp [hm2] at h
+        | some w =>
+          obtain ⟨d2, r'⟩ := w
+          simp [hm2] at h
+          obtain ⟨_, rfl⟩ := h
+          have h1 := many1_rest_lt hm1
+          have h2 := many1_rest_lt hm2
+          simp only [List.length_cons] at h1; omega
+      · split at h
+        · rename_i heq; simp at heq; exact absurd heq.2.1 hc
+        · simp at h
+
+theorem sentinelVersion_rest_lt {env : Env} {s a b : Str} (h : sentinelVersion env s = some (a, b)) : b.length < s.length := by
+  unfold sentinelVersion at h
+  cases hm : many1 env.isDigit s with
+  | none => simp [hm] at h
+  | some v =>
+    obtain ⟨d, r⟩ := v
+    simp only [hm] at h
+    have h1 := many1_rest_lt hm
+    have h2 := dotDigitsStar_rest_le env r.length r
+    have h3 := opt_rest_le prerelease (fun _ _ _ => prerelease_rest_lt) (dotDigitsStar env r.length r).2
+    simp only [Option.some.injEq, Prod.mk.injEq] at h
+    obtain ⟨_, rfl⟩ := h
+    omega
+
+theorem version3_rest_lt {env : Env} {s a b : Str} (h : version3 env s = some (a, b)) : b.length < s.length := by
+  unfold version3 at h
+  cases ht : twoParts env s with
+  | none => simp [ht] at h
+  | some v =>
+    obtain ⟨ab, r⟩ := v
+    have h0 := twoParts_rest_lt ht
+    simp only [ht] at h
+    cases r with
+    | nil => simp at h
+    | cons c r0 =>
+      by_cases hc : c = '.'
+      · subst hc
+        simp only at h
+        cases hm : many1 env.isDigit r0 with
+        | none => simp [hm] at h
+        | some w =>
+          obtain ⟨d3, r1⟩ := w
+          have h1 := many1_rest_lt hm
+          have h2 := dotDigitsStar_rest_le env r1.length r1
+          have h3 := opt_rest_le prerelease (fun _ _ _ => prerelease_rest_lt) (dotDigitsStar env r1.length r1).2
+          have h4 := opt_rest_le build (fun _ _ _ => build_rest_lt) (opt prerelease (dotDigitsStar env r1.length r1).2).2
+          simp [hm] at h
+          obtain ⟨_, rfl⟩ := h
+          simp only [List.length_cons] at h0; omega
+      · split at h
+        · rename_i heq; simp at heq; exact absurd heq.2.1 hc
+        · simp at h
+
+theorem version2pre_rest_lt {env : Env} {s a b : Str} (h : version2pre env s = some (a, b)) : b.length < s.length := by
+  unfold version2pre at h
+  cases ht : twoParts env s with
+  | none => simp [ht] at h
+  | some v =>
+    obtain ⟨ab, r⟩ := v
+    have h0 := twoParts_rest_lt ht
+    simp only [ht] at h
+    cases hp : prerelease r with
+    | none => simp [hp] at h
+    | some w =>
+      obtain ⟨p, r1⟩ := w
+      have h1 := prerelease_rest_lt hp
+      have h2 := opt_rest_le build (fun _ _ _ => build_rest_lt) r1
+      simp [hp] at h
+      obtain ⟨_, rfl⟩ := h
+      omega
+
+theorem version2build_rest_lt {env : Env} {s a b : Str} (h : version2build env s = some (a, b)) : b.length < s.length := by
+  unfold version2build at h
+  cases ht : twoParts env s with
+  | none => simp [ht] at h
+  | some v =>
+    obtain ⟨ab, r⟩ := v
+    have h0 := twoParts_rest_lt ht
+    simp only [ht] at h
+    cases hb : build r with
+    | none => simp [hb] at h
+    | some w =>
+      obtain ⟨p, r1⟩ := w
+      have h1 := build_rest_lt hb
+      simp [hb] at h
+      obtain ⟨_, rfl⟩ := h
+      omega
+
+theorem envelopeStart_rest_lt {s a b : Str} (h : envelopeStart s = some (a, b)) : b.length < s.length := by
+  unfold envelopeStart at h
+  split at h
+  · rename_i c r hl
+    have h0 := lit_rest hl
+    split at h
+    · have h1 := takeWhile_rest_le isEnvBody r
+      simp only [Option.map_eq_some_iff, Prod.mk.injEq] at h
+      obtain ⟨r2, hl2, _, rfl⟩ := h
+      have h2 := lit_rest hl2
+      have e3 : "===".toList.length = 3 := by decide
+      simp only [List.length_cons, e3] at h0 h2
+      omega
+    · simp at h
+  · simp at h
+
+theorem optChar_rest_le (p : Char → Bool) (s : Str) : (optChar p s).2.length ≤ s.length := by
+  unfold optChar
+  split
+  · split <;> simp
+  · simp
+
+theorem number_rest_lt {env : Env} {s a b : Str} (h : number env s = some (a, b)) : b.length < s.length := by
+  unfold number at h
+  have h0 := optChar_rest_le (· == '-') s
+  cases hm : many1 env.isDigit (optChar (· == '-') s).2 with
+  | none => simp [hm] at h
+  | some v =>
+    obtain ⟨d, r1⟩ := v
+    have h1 := many1_rest_lt hm
+    have h2 := optChar_rest_le (· == '.') r1
+    have h3 := takeWhile_rest_le env.isDigit (optChar (· == '.') r1).2
+    simp only [hm] at h
+    split at h
+    · rename_i e r4 heq
+      have h4 := optChar_rest_le (fun c => c == '+' || c == '-') r4
+      have h5 : r4.length < (takeWhile env.isDigit (optChar (· == '.') r1).2).2.length := by rw [heq]; simp
+      split at h
+      · cases hm2 : many1 env.isDigit (optChar (fun c => c == '+' || c == '-') r4).2 with
+        | none => simp [hm2] at h; obtain ⟨_, rfl⟩ := h; omega
+        | some w =>
+          obtain ⟨ed, r6⟩ := w
+          have h6 := many1_rest_lt hm2
+          simp [hm2] at h; obtain ⟨_, rfl⟩ := h; omega
+      · simp at h; obtain ⟨_, rfl⟩ := h; omega
+    · simp at h; obtain ⟨_, rfl⟩ := h; omega
 end Scan
 end Octave
